@@ -23,10 +23,13 @@
 (* Variant "params_into_particles" - as per_read, but a file's <name>_mass  *)
 (*                          / _width parameters are written into the       *)
 (*                          process-wide particle objects                  *)
+(* Variant "index_memo"  - as per_read, but the index lists of an amplitude  *)
+(*                          structure are remembered across files whatever *)
+(*                          the order of the event type                    *)
 (* Variant "table_on_demand" - as per_read, but the special particle table *)
 (*                          (which also overrides K(1460)) is only loaded  *)
 (*                          by a file that names a pseudo-particle         *)
-(* TLC checks HistoryIndependent for "per_read", refutes the four others,   *)
+(* TLC checks HistoryIndependent for "per_read", refutes the five others,   *)
 (* and emits every history for replay against fresh interpreters.          *)
 (***************************************************************************)
 EXTENDS Naturals, Sequences, FiniteSets, TLC, VerifIO, Json, IOUtils
@@ -34,37 +37,41 @@ EXTENDS Naturals, Sequences, FiniteSets, TLC, VerifIO, Json, IOUtils
 CONSTANTS Variant, MaxLen, EmitMode
 
 Classes == {"base", "cpp", "py"}
-Files == {"fA", "fB", "fC", "fD", "fE", "fF"}
+Files == {"fA", "fB", "fC", "fD", "fE", "fF", "fG"}
 \* (the resonance content of the four files of harness/c20.py)
 \* fE carries the cartesian option and a resonance name the particle table does not know: the read is rejected.
 \* pseudo: the file names one of the pseudo-particles of the special table (KPi00, PiPi00, ...); sensitive: it names
 \* a particle whose mass and width the special table *overrides* (K(1460)), so its result shows whether that
 \* process-wide table was loaded when the file was read.  sets: resonances for which the file carries <name>_mass /
 \* <name>_width parameter lines (fD for r3); those are fit parameters of that file and nothing else.
-FileOf(f) == CASE f = "fA" -> [res |-> {"r1", "r2"}, cart |-> "absent", fails |-> FALSE, pseudo |-> FALSE, sensitive |-> FALSE, sets |-> {}]
-               [] f = "fB" -> [res |-> {"r2", "r3"}, cart |-> "1", fails |-> FALSE, pseudo |-> FALSE, sensitive |-> FALSE, sets |-> {}]
-               [] f = "fC" -> [res |-> {"r4", "r6", "r7"}, cart |-> "0", fails |-> FALSE, pseudo |-> TRUE, sensitive |-> FALSE, sets |-> {}]
-               [] f = "fD" -> [res |-> {"r1", "r3", "r5", "r8"}, cart |-> "absent", fails |-> FALSE, pseudo |-> FALSE, sensitive |-> FALSE, sets |-> {"r3"}]
-               [] f = "fE" -> [res |-> {"r1"}, cart |-> "1", fails |-> TRUE, pseudo |-> FALSE, sensitive |-> FALSE, sets |-> {}]
-               [] f = "fF" -> [res |-> {"r1", "r9"}, cart |-> "absent", fails |-> FALSE, pseudo |-> FALSE, sensitive |-> TRUE, sets |-> {}]
+FileOf(f) == CASE f = "fA" -> [res |-> {"r1", "r2"}, cart |-> "absent", fails |-> FALSE, pseudo |-> FALSE, sensitive |-> FALSE, sets |-> {}, struct |-> "s1", order |-> "o1"]
+               [] f = "fB" -> [res |-> {"r2", "r3"}, cart |-> "1", fails |-> FALSE, pseudo |-> FALSE, sensitive |-> FALSE, sets |-> {}, struct |-> "sB", order |-> "o1"]
+               [] f = "fC" -> [res |-> {"r4", "r6", "r7"}, cart |-> "0", fails |-> FALSE, pseudo |-> TRUE, sensitive |-> FALSE, sets |-> {}, struct |-> "sC", order |-> "o1"]
+               [] f = "fD" -> [res |-> {"r1", "r3", "r5", "r8"}, cart |-> "absent", fails |-> FALSE, pseudo |-> FALSE, sensitive |-> FALSE, sets |-> {"r3"}, struct |-> "sD", order |-> "o1"]
+               [] f = "fE" -> [res |-> {"r1"}, cart |-> "1", fails |-> TRUE, pseudo |-> FALSE, sensitive |-> FALSE, sets |-> {}, struct |-> "sE", order |-> "o1"]
+               \* fG: the amplitudes of fA under an event type that lists the same particles in another order
+               [] f = "fG" -> [res |-> {"r1", "r2"}, cart |-> "absent", fails |-> FALSE, pseudo |-> FALSE, sensitive |-> FALSE, sets |-> {},
+                               struct |-> "s1", order |-> "o2"]
+               [] f = "fF" -> [res |-> {"r1", "r9"}, cart |-> "absent", fails |-> FALSE, pseudo |-> FALSE, sensitive |-> TRUE, sets |-> {}, struct |-> "sF", order |-> "o1"]
 
 VARIABLES allP,    \* the shared set
           cart,    \* cls -> "unset" | "F" | "T"   ("unset": look at the base class)
           tbl,     \* the special particle table has been appended to the process-wide particle table
           pmod,    \* resonances whose (process-wide, shared) particle object had its mass / width overwritten
+          memo,    \* amplitude structure -> event-type order under which its index lists were first computed
           hist,
           tid, l   \* trace validation only
-vars == <<allP, cart, tbl, pmod, hist, tid, l>>
-AbsView == <<allP, cart, tbl, pmod>>
+vars == <<allP, cart, tbl, pmod, memo, hist, tid, l>>
+AbsView == <<allP, cart, tbl, pmod, memo>>
 
 Lookup(c, cls) == IF c[cls] # "unset" THEN c[cls] ELSE IF c["base"] # "unset" THEN c["base"] ELSE "F"
 
-Init == allP = {} /\ cart = [c \in Classes |-> IF c = "base" THEN "F" ELSE "unset"] /\ tbl = FALSE /\ pmod = {} /\ hist = <<>> /\ tid = 0 /\ l = 1
+Init == allP = {} /\ cart = [c \in Classes |-> IF c = "base" THEN "F" ELSE "unset"] /\ tbl = FALSE /\ pmod = {} /\ memo = {} /\ hist = <<>> /\ tid = 0 /\ l = 1
 
 \* what the call returns when made in state (a, c), and the state it leaves
 \* the table the read works with: every read loads it first thing, except in the variant that loads it on demand
 TableAfter(t, f) == IF Variant = "table_on_demand" THEN t \/ FileOf(f).pseudo ELSE TRUE
-After(a, c, t, pm, cls, f) ==
+After(a, c, t, pm, mm, cls, f) ==
     LET F == FileOf(f)
         c1 == IF F.cart = "absent" THEN c ELSE [c EXCEPT ![cls] = IF F.cart = "1" THEN "T" ELSE "F"]
         a0 == IF Variant = "accumulating" THEN a ELSE {}
@@ -72,25 +79,31 @@ After(a, c, t, pm, cls, f) ==
         t1 == TableAfter(t, f)
         \* the variant that writes a file's <name>_mass / _width parameters into the shared particle objects
         pm1 == IF Variant = "params_into_particles" THEN pm \cup F.sets ELSE pm
+        \* the variant that remembers index lists per amplitude structure, whatever the event type's order
+        known == {p \in mm : p[1] = F.struct}
+        mm1 == IF Variant = "index_memo" /\ known = {} THEN mm \cup {<<F.struct, F.order>>} ELSE mm
+        indices == IF Variant = "index_memo" /\ known # {} THEN (CHOOSE p \in known : TRUE)[2] ELSE F.order
         massfrom == [r \in F.res |-> IF r \in F.sets /\ Variant = "params_into_particles" THEN "own-parameter"
                                       ELSE IF r \in pm THEN "earlier-file" ELSE "table"]
     IN IF F.fails
-       THEN [result |-> [declared |-> {"rejected"}, coupling |-> "rejected", table |-> "n/a", massfrom |-> <<>>],
-             allP |-> a1, tbl |-> t1, pmod |-> pm,
+       THEN [result |-> [declared |-> {"rejected"}, coupling |-> "rejected", table |-> "n/a", massfrom |-> <<>>,
+                         indices |-> "n/a"],
+             allP |-> a1, tbl |-> t1, pmod |-> pm, memo |-> mm,
              \* the option has been applied when the read is rejected: it must be put back on this path too
-             cart |-> IF Variant \in {"per_read", "table_on_demand", "params_into_particles"} THEN c ELSE c1]
+             cart |-> IF Variant \in {"per_read", "table_on_demand", "params_into_particles", "index_memo"} THEN c ELSE c1]
        ELSE [result |-> [declared |-> a1, coupling |-> Lookup(c1, cls),
                          table |-> IF ~F.sensitive THEN "n/a" ELSE IF t1 THEN "special" ELSE "plain",
-                         massfrom |-> massfrom],
-             allP |-> a1, tbl |-> t1, pmod |-> pm1,
-             cart |-> IF Variant \in {"per_read", "no_restore_when_rejected", "table_on_demand", "params_into_particles"} THEN c ELSE c1]
+                         massfrom |-> massfrom, indices |-> indices],
+             allP |-> a1, tbl |-> t1, pmod |-> pm1, memo |-> mm1,
+             cart |-> IF Variant \in {"per_read", "no_restore_when_rejected", "table_on_demand", "params_into_particles", "index_memo"} THEN c ELSE c1]
 
 Call(cls, f) ==
-    LET r == After(allP, cart, tbl, pmod, cls, f) IN
+    LET r == After(allP, cart, tbl, pmod, memo, cls, f) IN
     /\ allP' = r.allP
     /\ cart' = r.cart
     /\ tbl' = r.tbl
     /\ pmod' = r.pmod
+    /\ memo' = r.memo
     /\ hist' = Append(hist, [cls |-> cls, f |-> f, result |-> r.result])
 
 GenNext ==
@@ -105,7 +118,7 @@ GenNext ==
 \*  <<"n/a">> for a plain read; coupling: "T" | "F" as the harness reads it off the numbers)
 Traces == IF EmitMode = "trace" THEN JsonDeserialize(IOEnv.TRACE_FILE) ELSE <<>>
 TraceNext ==
-    \/ /\ tid = 0 /\ tid' \in 1..Len(Traces) /\ UNCHANGED <<allP, cart, tbl, pmod, hist, l>>
+    \/ /\ tid = 0 /\ tid' \in 1..Len(Traces) /\ UNCHANGED <<allP, cart, tbl, pmod, memo, hist, l>>
     \/ /\ tid > 0 /\ l <= Len(Traces[tid])
        /\ LET ev == Traces[tid][l] IN
           /\ Call(ev.cls, ev.f)
@@ -137,7 +150,7 @@ InitC == [c \in Classes |-> IF c = "base" THEN "F" ELSE "unset"]
 \* whatever was read or converted earlier, by whichever class, a call gives what it gives in a fresh process
 HistoryIndependent ==
     \A cls \in Classes, f \in Files :
-        After(allP, cart, tbl, pmod, cls, f).result = After(InitA, InitC, FALSE, {}, cls, f).result
+        After(allP, cart, tbl, pmod, memo, cls, f).result = After(InitA, InitC, FALSE, {}, {}, cls, f).result
 \* reachability companion (expected to be violated): overlapping resonance content does occur
 NeverOverlap == ~(Len(hist) >= 2 /\ FileOf(hist[1].f).res \cap FileOf(hist[2].f).res # {}
                   /\ FileOf(hist[1].f).res # FileOf(hist[2].f).res)
